@@ -35,8 +35,9 @@ class BadKey:
         self.sk = None
 
 
-K = [Key(0x1001), Key(0x1002), Key(0x2003), BadKey(), Key(0x3005), Key(0x3006)]
-# K[0], K[1]: wallet keys; K[2]: foreign key; K[3]: invalid curve point; K[4], K[5]: miners / extras
+K = [Key(0x1001), Key(0x1002), Key(0x2003), BadKey(), Key(0x3005), Key(0x3006), Key(0x4007), Key(0x4008)]
+# K[0], K[1]: wallet keys; K[2]: foreign key; K[3]: invalid curve point; K[4], K[5]: miners / extras;
+# K[6], K[7]: keys that are paid for the first time by a transaction with two outputs to the same key
 
 _sig_cache = {}
 
